@@ -844,3 +844,56 @@ func staleErrorRule(c *core.Check, r *core.Rule, pkgs ...string) {
 		r.Anchor("loops testing an error in " + strings.Join(pkgs, ", "))
 	}
 }
+
+// importScopeRule: the set of the style sheets being imported is a stack, not a history.  In the loop over the rules
+// of a sheet, the url marked before the imported sheet is loaded is unmarked by a direct delete before the next rule
+// is looked at (a deferred delete runs when the whole sheet is finished: a second @import of the same url in the same
+// sheet would be taken for a cycle and ignored, and the cascade would lose its declarations).
+func importScopeRule(c *core.Check, r *core.Rule) {
+	p := c.Prog
+	fn := p.Fn("html/tree", "preprocessStylesheetImports")
+	if fn == nil {
+		r.Anchor("html/tree.preprocessStylesheetImports")
+		return
+	}
+	n := 0
+	core.Instrs(fn, func(in ssa.Instruction) {
+		call, ok := in.(*ssa.Call)
+		if !ok {
+			return
+		}
+		cal := call.Call.StaticCallee()
+		if cal == nil || cal.Name() != "Add" || len(call.Call.Args) != 2 {
+			return
+		}
+		if _, isMap := call.Call.Args[0].Type().Underlying().(*types.Map); !isMap {
+			return
+		}
+		l := core.InnermostLoop(fn, call.Block())
+		if l == nil {
+			return
+		}
+		n++
+		key := call.Call.Args[1]
+		isDel := func(x ssa.Instruction) bool {
+			c2, ok := x.(*ssa.Call) // a direct call: a Defer does not count
+			if !ok {
+				return false
+			}
+			b, isB := c2.Call.Value.(*ssa.Builtin)
+			return isB && b.Name() == "delete" && len(c2.Call.Args) == 2 && (c2.Call.Args[1] == key || core.ResolveLoad(c2.Call.Args[1]) == core.ResolveLoad(key))
+		}
+		leaves := func(x ssa.Instruction) bool {
+			b := x.Block()
+			if !l.Blocks[b] {
+				return true
+			}
+			return b == l.Header && len(b.Instrs) > 0 && b.Instrs[0] == x
+		}
+		ok2 := core.PassBetween(in, isDel, leaves)
+		r.Cond(ok2, "html/tree.preprocessStylesheetImports | url unmarked before the next rule", p.Pos(call.Pos()), "a direct delete of the same key on every path to the next iteration", "the url stays marked as being imported after its sheet was loaded (no direct delete before the next rule; a deferred one runs when the whole sheet is done): `@import a; @import b; @import a` ignores the second import of a and b wins the cascade")
+	})
+	if n == 0 {
+		r.Anchor("preprocessStylesheetImports: importing.Add(url) in the loop over the rules")
+	}
+}
